@@ -165,10 +165,12 @@ CHECKS.update({
             "`valid` combinations of the property (sound, complete up to same_creq, distinct); the slot conditions mean what the property "
             "says (room, traits, aggregates, tree); the code model's per-group single-provider search equals the specification's slot "
             "condition; on the fragment 'no sharing provider, every group suffixed' (any number of groups, group_policy, same_subtree, "
-            "root_required, in_tree, member_of, any microversion) the whole pipeline returns EXACTLY the specification's combinations "
+            "root_required, in_tree, member_of, any microversion) the whole pipeline returns exactly the specification's combinations "
             "(C03_suffixed_only_exact); with the unsuffixed group too (resources spread over one tree - the shape nova sends), still "
             "without sharing providers, everything the pipeline returns is a valid combination (C03_no_sharing_sound; its one extra "
-            "hypothesis, each class named once, is derived for every accepted query string: C03_accepted_un_rcs_nodup); from the query string (Model/DecodeQC.v: regenerated query schemas + the lib.py request-group "
+            "hypothesis, each class named once, is derived for every accepted query string: C03_accepted_un_rcs_nodup) and nothing valid "
+            "is omitted: WITHOUT SHARING PROVIDERS THE PIPELINE RETURNS EXACTLY THE PROPERTY'S SET FOR EVERY QUERY (C03_no_sharing_exact, "
+            "C03_no_sharing_verdict); from the query string (Model/DecodeQC.v: regenerated query schemas + the lib.py request-group "
             "assembly + value parsers) every accepted query satisfies query_wf, the assumption of the candidate theorems "
             "(C03_query_accepted_wf; tie: the real handler on generated query strings with the search replaced by a capture). NOT proved: whole-pipeline equality of the code model with the specification - it is FALSE: theorems "
             "C03_refuted_anchor_dedup and C03_refuted_in_tree_pin exhibit states and queries (replayed on the application on every run, "
